@@ -225,7 +225,6 @@ void run_case(Rng& rng, std::uint64_t idx)
     count(std::string("runs_") + names[c.integ]);
     count("collectives_checked", world.collectives);
     count("distinct_schedules_in_run", world.schedules.size());
-    for (auto s : world.schedules) ctx().sigs.insert(mix(s, 0x5c4ed));   // distinct (arrival order, reduction order) pairs seen
     if (world.aborted) { viol(std::string("collective-mismatch-or-hang:") + names[c.integ], J(info).s("reason", world.abort_reason)); return; }
     for (int r = 1; r < P; ++r)
     {
